@@ -84,18 +84,17 @@ def judgeTiled (l : Layout) (w h : Nat) (payload out : Buf) : String := Id.run d
 open Spec.Etc1 Spec.Morton in
 def judgeEtc (alpha : Bool) (w h : Nat) (payload out : Buf) : String := Id.run do
   if out.size ≠ 4 * w * h then return s!"FAIL output has {out.size} bytes, expected {4 * w * h}"
-  let bs := if alpha then 16 else 8
   for y in [0:h] do
     for x in [0:w] do
       let bi := etcBlock w x y
-      let word := Spec.Linear.leAt payload (bi * bs + (if alpha then 8 else 0)) 8
+      let word := wordAt payload w alpha x y
       let o := (y * w + x) * 4
       if decide (Legal word) then
         for ch in [0:3] do
           if ((out.getD (o + ch) 0).toNat : Int) ≠ channel word (x % 4) (y % 4) ch then
             return s!"FAIL pixel ({x},{y}) channel {ch} = {(out.getD (o + ch) 0).toNat}, ETC1 rules give {channel word (x % 4) (y % 4) ch} (block {bi}, word {word})"
       if alpha then
-        let a := alphaNibble (Spec.Linear.leAt payload (bi * bs) 8) (x % 4) (y % 4)
+        let a := alphaNibble (alphaWordAt payload w alpha x y) (x % 4) (y % 4)
         if ¬ Spec.Linear.withinStep 4 a (out.getD (o + 3) 0).toNat then
           return s!"FAIL pixel ({x},{y}) alpha = {(out.getD (o + 3) 0).toNat}, nibble {a}"
   return "ok"
